@@ -287,6 +287,13 @@ func (fx *loopFx) collectStored(blocks []*ssa.BasicBlock, depth int) {
 
 // havocLoop havocs everything the loop body may modify.
 func (c *FnCtx) havocLoop(frame *Frame, l *Loop, st *State) {
+	// objects allocated by earlier iterations exist at the loop head: widen the allocated set
+	{
+		na := c.fresh("alloc", "(Array Int Bool)")
+		st.assume(fmt.Sprintf("(forall ((r Int)) (=> (select %s r) (select %s r)))", st.alloc, na))
+		st.assume(not(sel(na, "0")))
+		st.alloc = na
+	}
 	// 1. header phis
 	for _, in := range l.Header.Instrs {
 		phi, ok := in.(*ssa.Phi)
@@ -434,6 +441,20 @@ func (fx *loopFx) storeTarget(addr ssa.Value, subst map[ssa.Value]ssa.Value) {
 				havocAt(space, key, a.Idx[0])
 				return
 			}
+		}
+		// a store into an object allocated inside the loop body (or an inlined callee): the object
+		// did not exist when the loop was entered, so no location visible at the loop head changes
+		// (the allocated set itself is widened at the loop head)
+		w := v
+		for i := 0; i < 8; i++ {
+			if u, ok := subst[w]; ok {
+				w = u
+				continue
+			}
+			break
+		}
+		if _, isAlloc := w.(*ssa.Alloc); isAlloc {
+			return
 		}
 		fx.havocArraysOf(space, key, target, path)
 	}
